@@ -2,10 +2,13 @@
 # confirm_seed.sh <worktree> <outdir> <demo package dir relative to repo root> [test packages...]
 # Confirms a seeded change in a scratch worktree: applies on the worktree's HEAD, demo fails with it and
 # passes without it, the project builds and the existing tests of the given packages (default ./...) pass with it.
+# Every test run happens in a private network namespace: the suites pick "free" ports by probing, which collides
+# with whatever else runs on the machine ("bind: address already in use").
 W=$1; OUT=$2; PKG=$3; shift 3
 TESTPKGS=${@:-./...}
 export GOFLAGS=-mod=mod GOPROXY=off GOSUMDB=off GOTOOLCHAIN=local
 cd "$W" || exit 2
+NS() { unshare -n sh -c "ip link set lo up; ip addr add 10.99.0.1/24 dev lo 2>/dev/null; $*"; }
 git checkout -q -- . ; git clean -fdq
 DEMO=$(ls "$OUT"/*_test.go | head -1)
 res() { echo "$1" | tee -a "$OUT/confirm.txt"; }
@@ -13,10 +16,10 @@ res() { echo "$1" | tee -a "$OUT/confirm.txt"; }
 git apply --check "$OUT/patch.diff" || { res "patch does not apply"; exit 1; }
 cp "$DEMO" "$PKG/zz_demo_seed_test.go"
 DEMOTESTS=$(grep -o '^func Test[A-Za-z0-9_]*' "$DEMO" | sed 's/func //' | paste -sd'|')
-go test -vet=off -count=1 -run "^($DEMOTESTS)\$" "./$PKG" > "$OUT/demo_without.log" 2>&1 && res "demo without change: PASS" || res "demo without change: FAIL (unexpected)"
+NS "go test -vet=off -count=1 -run '^($DEMOTESTS)\$' ./$PKG" > "$OUT/demo_without.log" 2>&1 && res "demo without change: PASS" || res "demo without change: FAIL (unexpected)"
 git apply "$OUT/patch.diff"
 go build ./... > "$OUT/build.log" 2>&1 && res "build with change: ok" || res "build with change: FAILED"
-go test -vet=off -count=1 -run "^($DEMOTESTS)\$" "./$PKG" > "$OUT/demo_with.log" 2>&1 && res "demo with change: PASS (unexpected)" || res "demo with change: FAIL (expected)"
+NS "go test -vet=off -count=1 -run '^($DEMOTESTS)\$' ./$PKG" > "$OUT/demo_with.log" 2>&1 && res "demo with change: PASS (unexpected)" || res "demo with change: FAIL (expected)"
 rm -f "$PKG/zz_demo_seed_test.go"
-go test -vet=off -count=1 -timeout 25m $TESTPKGS > "$OUT/suite_with.log" 2>&1 && res "existing tests with change: PASS" || res "existing tests with change: FAIL: $(grep -E '^(--- FAIL|FAIL)' "$OUT/suite_with.log" | head -5 | tr '\n' ' ')"
+NS "go test -vet=off -count=1 -timeout 25m $TESTPKGS" > "$OUT/suite_with.log" 2>&1 && res "existing tests with change: PASS" || res "existing tests with change: FAIL: $(grep -E '^(--- FAIL|FAIL)' "$OUT/suite_with.log" | head -5 | tr '\n' ' ')"
 git checkout -q go.sum 2>/dev/null
